@@ -135,6 +135,14 @@ func (m *MultiEpoch) CountEpochs() int {
 func (m *MultiEpoch) GetEpochNumbers() []uint64 {
 	m.mu.RLock()
 	defer m.mu.RUnlock()
+	return m.epochNumbersLocked()
+}
+
+// epochNumbersLocked returns the epoch numbers, sorted from most recent to oldest.
+// The caller must hold m.mu. It exists so that methods which already hold the read lock do not
+// acquire it a second time through GetEpochNumbers: sync.RWMutex read locks must not be nested,
+// a writer waiting between the two acquisitions blocks the second one forever.
+func (m *MultiEpoch) epochNumbersLocked() []uint64 {
 	var epochNumbers []uint64
 	for epochNumber := range m.epochs {
 		epochNumbers = append(epochNumbers, epochNumber)
@@ -148,7 +156,7 @@ func (m *MultiEpoch) GetEpochNumbers() []uint64 {
 func (m *MultiEpoch) GetMostRecentAvailableEpoch() (*Epoch, error) {
 	m.mu.RLock()
 	defer m.mu.RUnlock()
-	numbers := m.GetEpochNumbers()
+	numbers := m.epochNumbersLocked()
 	if len(numbers) > 0 {
 		return m.epochs[numbers[0]], nil
 	}
@@ -158,7 +166,7 @@ func (m *MultiEpoch) GetMostRecentAvailableEpoch() (*Epoch, error) {
 func (m *MultiEpoch) GetOldestAvailableEpoch() (*Epoch, error) {
 	m.mu.RLock()
 	defer m.mu.RUnlock()
-	numbers := m.GetEpochNumbers()
+	numbers := m.epochNumbersLocked()
 	if len(numbers) > 0 {
 		return m.epochs[numbers[len(numbers)-1]], nil
 	}
